@@ -682,3 +682,16 @@ N('C15', 'exits of unit propagation merged', SATF,
   "            if not has_propagate and not has_unsatisfied:\n                return 'satisfiable'\n            if not has_propagate:\n                return None")
 N('C15', 'certificate appended after the step it records', SATF,
   "                    proof.append(propagate_id)\n                    clause = resolution(clause, cnf[propagate_id], name)", "                    clause = resolution(clause, cnf[propagate_id], name)\n                    proof.append(propagate_id)")
+
+# ------------------------------------------------------------------------------------------- C16
+B('C16', 'gcd elimination through float division', 'prover/omega.py',
+  "                elim_gcd_factoid = [i // g for i in df.factoid]", "                elim_gcd_factoid = [floor(i / g) for i in df.factoid]", 'C16.O1', 'extend_cross_product')
+B('C16', 'witness bound through float division', 'prover/omega.py',
+  "                c = c0 // (-coeff)", "                c = floor(c0 / (-coeff))", 'C16.O1', 'extend_vmap')
+B('C16', 'integrality tested through float', 'prover/simplex.py',
+  "                if Fraction(value).denominator != 1:\n                    return False", "                if not float(value).is_integer():\n                    return False", 'C16.O1', 'Simplex.all_integer')
+B('C16', 'witness extension ignores upper bounds', 'prover/omega.py',
+  "            if coeff < 0: #upper case\n                c = c0 // (-coeff)\n                if upper is None or c < upper:\n                    upper = c\n            \n            elif coeff > 0: #lower case",
+  "            if coeff > 0: #lower case", 'C16.O2', 'all-constraints-both-signs')
+N('C16', 'lcm with the division first', 'prover/omega.py',
+  "    return a * b // gcd(a, b)", "    return a // gcd(a, b) * b")
